@@ -14,7 +14,7 @@ from harness.gallina import gbool, glist, gn, gnat, gopt, gstr
 from harness.props.tscommon import BUILTIN_FEATURES, BUILTIN_TREE, err_kind
 
 ID = "C13"
-COQ_TARGETS = ["TS.vo", "TSProofs.vo", "Merge.vo", "MergeProofs.vo", "MergeProofs2.vo", "MergeProofs3.vo", "MergeProofs4.vo", "RefutedC13.vo", "CorrC13.vo", "Props/C13.vo"]
+COQ_TARGETS = ["TS.vo", "TSProofs.vo", "Merge.vo", "MergeProofs.vo", "MergeProofs2.vo", "MergeProofs3.vo", "MergeProofs4.vo", "MergeProofs5.vo", "RefutedC13.vo", "CorrC13.vo", "Props/C13.vo"]
 PROPS_FILE = "Props/C13.v"
 CORR_IMPORTS = "Base TS Merge CorrC13"
 OPEN_SCOPES = []
